@@ -8,31 +8,33 @@ use std::future::Future;
 use std::pin::Pin;
 use std::sync::atomic::{AtomicUsize, Ordering::SeqCst};
 use std::sync::Arc;
-use std::task::{Context, Poll, Wake, Waker};
+use std::task::{Context, Poll, Waker};
 
-struct CountWake {
+/// The caller's waker: a raw vtable over a tracker that counts references by hand, so that a wake or a release performed on a reference
+/// that is no longer alive is SEEN (an Arc-based waker would simply be kept alive by the harness's own clone).
+struct Tracker {
+    live: std::sync::atomic::AtomicI64,      // references alive: the executor's own waker plus every clone
     wakes: AtomicUsize,
+    wakes_on_dead: AtomicUsize,              // wake / wake_by_ref issued while no reference was alive
+    over_release: AtomicUsize,               // wake (by value) / drop issued while no reference was alive
 }
-impl Wake for CountWake {
-    fn wake(self: Arc<Self>) {
-        self.wakes.fetch_add(1, SeqCst);
-    }
-    fn wake_by_ref(self: &Arc<Self>) {
-        self.wakes.fetch_add(1, SeqCst);
-    }
-}
+unsafe fn t_clone(p: *const ()) -> std::task::RawWaker { (*(p as *const Tracker)).live.fetch_add(1, SeqCst); std::task::RawWaker::new(p, &T_VTABLE) }
+unsafe fn t_wake(p: *const ()) { let t = &*(p as *const Tracker); if t.live.load(SeqCst) <= 0 { t.wakes_on_dead.fetch_add(1, SeqCst); } t.wakes.fetch_add(1, SeqCst); if t.live.fetch_sub(1, SeqCst) <= 0 { t.over_release.fetch_add(1, SeqCst); } }
+unsafe fn t_wake_by_ref(p: *const ()) { let t = &*(p as *const Tracker); if t.live.load(SeqCst) <= 0 { t.wakes_on_dead.fetch_add(1, SeqCst); } t.wakes.fetch_add(1, SeqCst); }
+unsafe fn t_drop(p: *const ()) { let t = &*(p as *const Tracker); if t.live.fetch_sub(1, SeqCst) <= 0 { t.over_release.fetch_add(1, SeqCst); } }
+static T_VTABLE: std::task::RawWakerVTable = std::task::RawWakerVTable::new(t_clone, t_wake, t_wake_by_ref, t_drop);
 
 struct Shared {
     ops: Vec<Vec<i64>>,
     pos: usize,
     pool: Vec<Option<Waker>>,
     rows: Vec<Vec<i64>>, // result row, observation row, ...
-    cw: Arc<CountWake>,
-    base: usize,
+    cw: Arc<Tracker>,
+    base: i64,                 // 1 while the executor's own waker is alive, 0 after it dropped it (op 7)
 }
 impl Shared {
     fn observe(&self) -> Vec<i64> {
-        vec![self.cw.wakes.load(SeqCst) as i64, Arc::strong_count(&self.cw) as i64 - self.base as i64]
+        vec![self.cw.wakes.load(SeqCst) as i64, self.cw.live.load(SeqCst) - self.base]
     }
     fn record(&mut self, row: Vec<i64>) {
         let o = self.observe();
@@ -52,7 +54,7 @@ fn exec_outside(sh: &mut Shared, op: &[i64]) -> Vec<i64> {
         3 => { if live { sh.pool[h as usize].take().unwrap().wake(); vec![3, 1, -1] } else { vec![3, 0, -1] } }
         4 => { if live { sh.pool[h as usize].as_ref().unwrap().wake_by_ref(); vec![4, 1, -1] } else { vec![4, 0, -1] } }
         5 => { if live { drop(sh.pool[h as usize].take()); vec![5, 1, -1] } else { vec![5, 0, -1] } }
-        6 => vec![6, 1, -1],
+        6 | 7 => vec![6, 1, -1],
         _ => vec![-2],
     }
 }
@@ -90,19 +92,25 @@ pub fn run_threads(params: &[i64], ops: &Rows, mon: &mut Mon) -> Rows {
 }
 
 fn go(ops: &Rows, threads: usize, mon: &mut Mon) -> Rows {
-    let cw = Arc::new(CountWake { wakes: AtomicUsize::new(0) });
-    let orig: Waker = Waker::from(cw.clone());
-    let base = Arc::strong_count(&cw) + 1; // cw + orig + the copy inside Shared
-    let sh = Arc::new(Mutex::new(Shared { ops: ops.clone(), pos: 0, pool: Vec::new(), rows: Vec::new(), cw: cw.clone(), base }));
+    let cw = Arc::new(Tracker { live: std::sync::atomic::AtomicI64::new(1), wakes: AtomicUsize::new(0), wakes_on_dead: AtomicUsize::new(0), over_release: AtomicUsize::new(0) });
+    let mut orig: Option<Waker> = Some(unsafe { Waker::from_raw(std::task::RawWaker::new(Arc::as_ptr(&cw) as *const (), &T_VTABLE)) });
+    let sh = Arc::new(Mutex::new(Shared { ops: ops.clone(), pos: 0, pool: Vec::new(), rows: Vec::new(), cw: cw.clone(), base: 1 }));
     let fut = Scripted(sh.clone());
     let mut obj = trait_obj!(fut as Future);
     loop {
         let (pos, n) = { let s = sh.lock().unwrap(); (s.pos, s.ops.len()) };
         if pos >= n { break; }
         let op = sh.lock().unwrap().ops[pos].clone();
-        if matches!(op[0], 0 | 1) {
+        if op[0] == 7 {
+            // the executor lets go of its own waker: from now on the wakers retained by the foreign side hold the only references
+            let mut s = sh.lock().unwrap();
+            s.pos += 1;
+            if orig.take().is_some() { s.base = 0; }
+            s.record(vec![6, 1, -1]);
+        } else if matches!(op[0], 0 | 1) {
             // an in-poll op: poll the opaque future; the poll consumes ops until a '6' or the end of the script
-            let mut cx = Context::from_waker(&orig);
+            let w = match &orig { Some(w) => w, None => { let mut s = sh.lock().unwrap(); s.pos += 1; s.record(vec![-2]); continue; } };
+            let mut cx = Context::from_waker(w);
             let p = unsafe { Pin::new_unchecked(&mut obj) };
             let _ = p.poll(&mut cx);
         } else {
@@ -154,8 +162,14 @@ fn go(ops: &Rows, threads: usize, mon: &mut Mon) -> Rows {
     let o = sh.lock().unwrap().observe();
     if o[0] as usize != wake_ops { mon.fail(format!("caller's waker woken {} times for {} wake operations", o[0], wake_ops)); }
     if o[1] != 0 { mon.fail(format!("{} clones of the caller's waker still held after every foreign waker is gone", o[1])); }
+    let dead = cw.wakes_on_dead.load(SeqCst);
+    if dead != 0 { mon.fail(format!("{} wake(s) were issued on the caller's waker while none of its references was alive (woken after its release)", dead)); }
+    let over = cw.over_release.load(SeqCst);
+    if over != 0 { mon.fail(format!("{} release(s) of the caller's waker while none of its references was alive", over)); }
     drop(obj);
     drop(sh);
-    if Arc::strong_count(&cw) != 2 { mon.fail(format!("strong count of the caller's waker is {} instead of 2", Arc::strong_count(&cw))); }
+    let want = if orig.is_some() { 1 } else { 0 };
+    if cw.live.load(SeqCst) != want { mon.fail(format!("{} references to the caller's waker alive at the end instead of {}", cw.live.load(SeqCst), want)); }
+    drop(orig);
     if threads > 0 { vec![o] } else { out }
 }
